@@ -101,6 +101,10 @@ R_Acts       == {"OpenStream", "RemoveStream", "OnStreamClose", "SubCheck", "Sub
 \* close || subscribe of stream 2 while stream 1 holds the same pattern (prelude "holder"): the refcount of the pattern is shared
 Rh_Acts      == {"OpenStream", "RemoveStream", "OnStreamClose", "SubCheck", "Sub1", "Sub2", "Sub3"}
 Rh_SubFrames == {<<pA>>}
+\* a pattern shared by two streams (prelude "holder"): stream 2 subscribes the pattern stream 1 holds, withdraws it (by name / empty = all)
+\* and publishes before / after - the withdrawal of one holder must strip exactly that stream's routing tag while the refcount stays > 0
+Rs_Acts      == {"OpenStream", "SubCheck", "Sub1", "Sub2", "Sub3", "Unsub1", "Publish"}
+Rs_Unsub     == {{}, {pA}}
 R1_StreamAcct == <<"A">>
 R1_StreamPeer == <<"pA">>
 R1_Acts       == {"OpenStream", "RemoveStream", "OnStreamClose", "SubCheck", "Sub1", "Sub2", "Sub3", "Unsub1"}
